@@ -61,11 +61,59 @@ def _vector_preserving(f, defs, put):
     return True
 
 
+def _callers_invalidate(cr, cg, f, kind, cparams):
+    """does every call site of the (non-public) mutator f invalidate the right cache slot on its success paths?"""
+    callers = [h for h in cg.redges.get(f.name, ()) if h in cr.fns]
+    if not callers:
+        return (True, 'no caller')
+    seen = []
+    for hn in sorted(callers):
+        h = cr.fns[hn]
+        sites = [s_.bb for s_ in cg.sites.get((hn, f.name), [])]
+        site_calls = cg.sites.get((hn, f.name), [])
+        if not sites:
+            return (False, '%s refers to it without a visible call site' % lib.short(hn))
+        hd = A.Defs(h)
+        inv = A.calls_to(h, INV)
+        invb = {c.bb for c in inv}
+        R0 = A.reachable(h, [0], cut_blocks=invb)
+        for sc in site_calls:
+            start = [sc.target] if sc.target is not None and sc.target >= 0 else []
+            rets = lib.success_return_reachable(h, start, cut_blocks=invb) if start else []
+            if rets and sc.bb in R0:
+                return (False, '%s calls it and can return success without invalidate_hnsw_cache' % lib.short(hn))
+            ok_arg = False
+            for ic in inv:
+                a = ic.args[1] if len(ic.args) > 1 else None
+                if a is None:
+                    continue
+                sig = lib.value_sig(h, hd, a)
+                if kind == 'default':
+                    if any('_default' in x for x in sig):
+                        ok_arg = True
+                else:
+                    for p_ in cparams:
+                        if p_ - 1 < len(sc.args) and sc.args[p_ - 1][0] != 'k':
+                            sa = A.backward_slice(h, [sc.args[p_ - 1]], hd)
+                            si = A.backward_slice(h, [a], hd) if a[0] != 'k' else None
+                            if si is not None and (sa.locals & si.locals):
+                                ok_arg = True
+                    if not cparams:
+                        ok_arg = True
+            if not ok_arg:
+                return (False, '%s invalidates another cache slot than the one whose embeddings it changes through %s (%s collection: the slot is %s)' % (
+                    lib.short(hn), lib.short(f.name), kind, '"_default"' if kind == 'default' else 'the collection passed to the write'))
+        seen.append(lib.short(hn))
+    return (True, ', '.join(seen))
+
+
 def r06a(ctx, rep, cr):
+    cg = A.CallGraph([cr])
     rep.rule('R06a', 'for every VectorEngine body (methods and their closures) that calls a TensorStore mutator on a key built by '
                      'embedding_key / collection_embedding_key / the embedding prefixes: on every path through the mutation to a '
                      'success return invalidate_hnsw_cache is called — after the mutation, or before it — with "_default" resp. the '
-                     'same collection; mutations inside closures are charged to the method that creates the closure')
+                     'same collection; mutations inside closures are charged to the method that creates the closure, and a non-public mutator '
+                     'without its own invalidation is charged to every one of its call sites')
     n = 0
     for f in cr.fns.values():
         if not f.name.startswith(VE) or f.name.startswith(INV):
@@ -116,9 +164,15 @@ def r06a(ctx, rep, cr):
             rets = lib.success_return_reachable(f, start, cut_blocks=invb) if start else []
             before = c.bb not in R0
             if rets and not before:
+                # a private write-half whose callers drop the cache (`write_x` + public wrapper): charge the call sites
+                verdict = _callers_invalidate(cr, cg, f, kind, cparams) if f.d.get('vis') != 'Public' else None
+                if verdict is not None and verdict[0]:
+                    rep.holds('R06a', f, 'mutation#%d' % k, 'not public; every call site invalidates (%s): %s' % (kind, verdict[1]))
+                    continue
                 rep.violation('R06a', f, 'no-invalidate', f.loc(c.line),
-                              '%s on an embedding key (%s) reaches a success return without invalidate_hnsw_cache: a cached index keeps '
-                              'answering with deleted / overwritten vectors' % (lib.short(c.resolved), kind))
+                              '%s on an embedding key (%s) reaches a success return without invalidate_hnsw_cache%s: a cached index keeps '
+                              'answering with deleted / overwritten vectors' % (lib.short(c.resolved), kind,
+                                                                                 (' and so does its caller — ' + verdict[1]) if verdict else ''))
                 continue
             # matching collection argument
             ok_arg = False
